@@ -67,6 +67,8 @@ def freshLoc : E Loc := fun n => .ok (.fresh n, n + 1)
 structure CustomSem where
   /-- `failsOn fn arg` : the custom function returns an error for this (first) argument -/
   failsOn : S → Val → Bool := fun _ _ => false
+  /-- constructors (`default FUNC`) are interpreted: they return `ctorVal` of their result type -/
+  isCtor : S → Bool := fun _ => false
 
 structure Program where
   conv : Gen.Converter
@@ -91,6 +93,25 @@ where
   zeroFields (env : TEnv) (fuel : Nat) : List (FieldInfo × Ty) → List (S × Val)
     | [] => []
     | (f, t) :: rest => (f.name, zeroVal env fuel t) :: zeroFields env fuel rest
+
+/-- what the harness' constructor functions return: numeric fields 7, strings "ctor", everything else zero -/
+def ctorVal (env : TEnv) : Nat → Ty → Val
+  | 0, _ => .nil
+  | fuel+1, t =>
+    match under env t with
+    | .basic .string => .basic "ctor".toList
+    | .basic .bool => .basic "false".toList
+    | .basic _ => .basic "7".toList
+    | .array n e => .arr (List.replicate n (zeroVal env fuel e))
+    | .struct fs => .struct (ctorFields env fuel fs.toList)
+    | _ => .nil
+where
+  ctorFields (env : TEnv) (fuel : Nat) : List (FieldInfo × Ty) → List (S × Val)
+    | [] => []
+    | (f, t) :: rest =>
+      (f.name, match under env t with
+        | .basic _ => ctorVal env fuel t
+        | _ => zeroVal env fuel t) :: ctorFields env fuel rest
 
 def isZeroVal : Val → Bool
   | .nil => true
@@ -202,6 +223,10 @@ mutual
           | none => stuckE "bad custom index"
           | some d =>
             if retErr && p.sem.failsOn d.name (argVals.headD .nil) then errE (wrapErr w fr.idx fr.keys (.boom d.name))
+            else if p.sem.isCtor d.name then
+              match isPtr p.conv.env d.target with
+              | some e => do let l ← freshLoc; pure (.ptr l (ctorVal p.conv.env 64 e))
+              | none => pure (ctorVal p.conv.env 64 d.target)
             else pure (.tok d.name argVals)
         | .method m =>
           let ctxVals := args.filterMap (fun a => match a with | .ctx t => lookupCtx fr t | _ => none)
@@ -219,10 +244,10 @@ mutual
           let l ← freshLoc
           pure (.ptr l v)
         | _ => stuckE "ptrPtr: pointer expected"
-      | .srcPtr inner =>
+      | .srcPtr t inner =>
         match src with
         | .nil => pure old
-        | .ptr _ x => evalConv p fuel { fr with parent := some src } inner x old
+        | .ptr _ x => evalConv p fuel { fr with parent := some src } inner x (zeroVal p.conv.env 64 t)
         | _ => stuckE "srcPtr: pointer expected"
       | .tgtPtr te inner => do
         let v ← evalConv p fuel { fr with parent := none } inner src (zeroVal p.conv.env 64 te)
@@ -339,13 +364,15 @@ mutual
             else match leaf? with
               | none => (.nil, n)
               | some lv => if leafIsPtr then (lv, n) else (.ptr (.fresh n) lv, n + 1)
-          let oldF := (fieldOf old target).getD .nil
+          let oldF := if old.isAbsent then Val.absent else (fieldOf old target).getD .nil
           let skipZero := zero == .check && isZeroVal argv.1
           if skipZero then evalFields p fuel fr rest src old argv.2
           else
             let fr' := { fr with parent := if path.isEmpty then fr.parent else none }
             match evalConv p fuel fr' cv argv.1 oldF argv.2 with
-            | .ok (nv, n') => evalFields p fuel fr rest src (setField old target nv) n'
+            | .ok (nv, n') =>
+              if old.isAbsent && nv.isAbsent then evalFields p fuel fr rest src old n'
+              else evalFields p fuel fr rest src (setField old target nv) n'
             | .err e => .err e
             | .panic k => .panic k
             | .stuck w => .stuck w
@@ -396,7 +423,15 @@ def runMethod (p : Program) (m : Nat) (argVals : List Val) (fuel : Nat := 400) :
           | .err e => .err e
           | .panic k => .panic k
           | .stuck w => .stuck w
-      | .nil => .panic .nilDeref
+      | .nil =>
+        -- a nil target is only dereferenced when some field is actually assigned
+        if srcIsPtr && (match src with | .nil => true | _ => false) then .ok .nil
+        else
+          match evalConv p fuel fr c src .absent 0 with
+          | .ok (nv, _) => if nv.isAbsent then .ok .nil else .panic .nilDeref
+          | .err e => .err e
+          | .panic k => .panic k
+          | .stuck w => .stuck w
       | _ => .stuck "update target must be a pointer"
     | _ =>
       match callMethod p fuel m src ctxVals 0 with
